@@ -61,6 +61,7 @@ class Gen:
         self.pending = []	# names whose ill-typed definition was rejected: define them properly later
         self.pending_dom = []
         self.newtypes = ["Float", "DoubleFloat"] if dialect != "libaldor" else []	# types nothing has mentioned yet
+        self.uses_lib = False	# the session reads the prebuilt library lx.ao
         self.macros = []	# names defined by a top-level macro
         self.bumps = {}		# name -> (variable, increment)
         self.recs = {}		# name -> {a, b}
@@ -433,6 +434,17 @@ class Gen:
         self.vars[vn] = k
         return self.add(Form("if-taken", "#if %s\n%s := %d + z0;\n#endif" % (a, vn, k)))
 
+    def g_library(self):
+        """a library object read in the middle of the session (lazily loaded by the interpreter)"""
+        if self.uses_lib or self.d.name == "libaldor":
+            return self.g_out()
+        self.uses_lib = True
+        self.add(Form("library", '#library LX "lx.ao"'))
+        self.add(Form("import", "import from LX;"))
+        self.add(Form("import", "import from Foo;"))
+        self.funs["bar"] = (1, lambda a: a * a + 1)
+        return self.g_out()
+
     def g_localmacro(self):
         """a function whose body defines a macro; the macro's name is then defined as an ordinary
         session variable (a macro local to a body must not leak into the session)"""
@@ -687,7 +699,7 @@ class Gen:
                                 ("macro", 4), ("ifblock", 5), ("include", 3 if len(self.files) < 3 else 0),
                                 ("out_split", 6), ("fun_split", 4), ("bump", 4), ("exprstep", 6), ("out_bump", 5 if self.bumps else 0),
                                 ("record", 5), ("array", 5), ("closure", 3), ("gener", 4), ("cond", 3),
-                                ("localmacro", 3), ("where", 3), ("macro2", 3)])
+                                ("localmacro", 3), ("where", 3), ("macro2", 3), ("library", 2)])
                 getattr(self, "g_" + k)()
         # every session ends with an output so the last state is observed
         self.g_out()
